@@ -1,13 +1,15 @@
 #!/bin/sh
-# Offline setup: nothing to build -- syntax-check every spec and byte-compile the harness.
+# Offline setup: nothing to build -- syntax-check every spec with SANY (in parallel) and byte-compile the harness.
 cd "$(dirname "$0")" || exit 2
+LIB=$(find "$(pwd)/specs" -type d | tr '\n' ':')
+export LIB
+rm -f .work/sany_failed; mkdir -p evidence replays .work
+find specs -name '*.tla' | sort | xargs -P 12 -I{} sh -c '
+  f="{}"; d=$(dirname "$f"); b=$(basename "$f"); out=$(mktemp)
+  (cd "$d" && java -Xss8m -XX:TieredStopAtLevel=1 -DTLA-Library="$LIB" -cp /opt/veriftools/tla/tla2tools.jar:/opt/veriftools/tla/CommunityModules-deps.jar tla2sany.SANY "$b" >"$out" 2>&1) \
+    || { echo "SANY failed: $f"; grep -m3 -i "error\|cannot" "$out"; echo "$f" >> .work/sany_failed; }
+  rm -f "$out"'
 rc=0
-for f in $(find specs -name '*.tla' | sort); do
-  d=$(dirname "$f"); b=$(basename "$f")
-  # modules that read a trace file at parse time are skipped by SANY only if they fail for that reason
-  (cd "$d" && java -cp /opt/veriftools/tla/tla2tools.jar:/opt/veriftools/tla/CommunityModules-deps.jar tla2sany.SANY "$b" >/tmp/sany.$$ 2>&1) || { echo "SANY failed: $f"; tail -5 /tmp/sany.$$; rc=1; }
-done
-rm -f /tmp/sany.$$
+[ -s .work/sany_failed ] && rc=1
 /venv/bin/python -m compileall -q harness >/dev/null || rc=1
-mkdir -p evidence replays .work
 exit $rc
